@@ -36,7 +36,9 @@ func init() {
 }
 
 // quietRegistry: metric registry stub without any synchronisation.
-type quietRegistry struct{}
+// It keeps the gauge suppliers (registered while the instance is constructed, before any task
+// runs) so that a task can poll them like a started registry's poller would.
+type quietRegistry struct{ keep *[]core.MetricSupplier }
 type quietListener struct{}
 
 func (quietListener) AddSample(value float64, tags ...string) {}
@@ -49,9 +51,13 @@ func (quietRegistry) RegisterTiming(ID string, tags ...string) core.MetricSample
 func (quietRegistry) RegisterCount(ID string, tags ...string) core.MetricSampleListener {
 	return quietListener{}
 }
-func (quietRegistry) RegisterGauge(ID string, supplier core.MetricSupplier, tags ...string) {}
-func (quietRegistry) Start()                                                                {}
-func (quietRegistry) Stop()                                                                 {}
+func (q quietRegistry) RegisterGauge(ID string, supplier core.MetricSupplier, tags ...string) {
+	if q.keep != nil {
+		*q.keep = append(*q.keep, supplier)
+	}
+}
+func (quietRegistry) Start() {}
+func (quietRegistry) Stop()  {}
 
 type c17op struct {
 	name     string
@@ -64,11 +70,12 @@ func runC17(r *Run) {
 	group := t.Intn(5, "group")
 	var ops []c17op
 	var desc string
-	qr := quietRegistry{}
+	var suppliers []core.MetricSupplier
+	qr := quietRegistry{keep: &suppliers}
 	var cleanup func()
 	switch group {
 	case 0: // limits
-		which := t.Intn(8, "limit")
+		which := t.Intn(9, "limit")
 		var l core.Limit
 		switch which {
 		case 0:
@@ -87,6 +94,9 @@ func runC17(r *Run) {
 			l, _ = limit.NewWindowedLimit("windowed", 1e8, 1e8, 10, 0, limit.NewAIMDLimit("aimd", 10, 0.9, 1, qr), qr)
 		case 7:
 			l = limit.NewTracedLimit(limit.NewDefaultVegasLimitWithLimit("vegas", 10, nopLogger{}, qr), nopLogger{})
+		case 8:
+			// probes on (almost) every sample: the baseline measurement object is replaced while others read it
+			l = limit.NewVegasLimitWithRegistry("vegas-probing", 2, nil, 4, 1.0, nil, nil, nil, nil, nil, 1, nopLogger{}, qr)
 		}
 		desc = fmt.Sprintf("limit %T", l)
 		ops = []c17op{
@@ -165,7 +175,7 @@ func runC17(r *Run) {
 				{"BinLimit", false, func(tk *Task, x int) { _, _ = s.BinLimit("b") }},
 				{"AddPartition", true, func(tk *Task, x int) {
 					n := fmt.Sprintf("p%d", x%3)
-					s.AddPartition(n, strategy.NewLookupPartitionWithMetricRegistry(n, 0.05, 1, qr))
+					s.AddPartition(n, strategy.NewLookupPartitionWithMetricRegistry(n, 0.05, 1, quietRegistry{}))
 				}},
 				{"RemovePartition", true, func(tk *Task, x int) { s.RemovePartition(fmt.Sprintf("p%d", x%3)) }},
 				{"partition.String", false, func(tk *Task, x int) { _ = pa.String() }},
@@ -195,7 +205,7 @@ func runC17(r *Run) {
 				{"BinBusyCount", false, func(tk *Task, x int) { _, _ = s.BinBusyCount(0) }},
 				{"BinLimit", false, func(tk *Task, x int) { _, _ = s.BinLimit(0) }},
 				{"AddPartition", true, func(tk *Task, x int) {
-					s.AddPartition(strategy.NewPredicatePartitionWithMetricRegistry("c", 0.05, matchers.StringPredicateMatcher("c", false), qr))
+					s.AddPartition(strategy.NewPredicatePartitionWithMetricRegistry("c", 0.05, matchers.StringPredicateMatcher("c", false), quietRegistry{}))
 				}},
 				{"RemovePartitionsMatching", true, func(tk *Task, x int) { s.RemovePartitionsMatching(ctxs[2]) }},
 				{"partition.String", false, func(tk *Task, x int) { _ = pa.String() }},
@@ -205,8 +215,9 @@ func runC17(r *Run) {
 		}
 	case 2: // limiters
 		which := t.Intn(4, "limiter")
-		st := strategy.NewSimpleStrategyWithMetricRegistry(2, qr)
-		dl, _ := limiter.NewDefaultLimiter(limit.NewAIMDLimit("aimd", 2, 0.9, 1, qr), 1, 1, 0, 10, st, nopLogger{}, qr)
+		lim0 := 1 + t.Intn(2, "limiter-limit")
+		st := strategy.NewSimpleStrategyWithMetricRegistry(lim0, qr)
+		dl, _ := limiter.NewDefaultLimiter(limit.NewAIMDLimit("aimd", lim0, 0.9, 1, qr), 1, 1, 0, 10, st, nopLogger{}, qr)
 		var l core.Limiter = dl
 		switch which {
 		case 1:
@@ -296,6 +307,14 @@ func runC17(r *Run) {
 				prev()
 			}
 		}
+	}
+	if len(suppliers) > 0 {
+		sup := suppliers
+		ops = append(ops, c17op{"poll-gauges", false, func(tk *Task, x int) {
+			for _, f := range sup {
+				_, _ = f()
+			}
+		}})
 	}
 	nTasks := 2 + t.Intn(3, "tasks")
 	s := r.NewSched()
